@@ -341,39 +341,48 @@ impl<F: Write + Seek> Directory<F> {
         }
         debug_assert_eq!(self.dir_entry(stream_id).child, consts::NO_STREAM);
 
-        // Restructure the tree.
-        let mut replacement_id = consts::NO_STREAM;
-        loop {
-            let left_sibling = self.dir_entry(stream_id).left_sibling;
-            let right_sibling = self.dir_entry(stream_id).right_sibling;
-            if left_sibling == consts::NO_STREAM
-                && right_sibling == consts::NO_STREAM
-            {
-                break;
-            } else if left_sibling == consts::NO_STREAM {
-                replacement_id = right_sibling;
-                break;
-            } else if right_sibling == consts::NO_STREAM {
-                replacement_id = left_sibling;
-                break;
-            }
+        // Restructure the tree.  Only links change: every remaining entry
+        // stays in its own slot, so that stream IDs held elsewhere (e.g. by
+        // open streams) keep referring to the same object.
+        let left_sibling = self.dir_entry(stream_id).left_sibling;
+        let right_sibling = self.dir_entry(stream_id).right_sibling;
+        let replacement_id = if left_sibling == consts::NO_STREAM {
+            right_sibling
+        } else if right_sibling == consts::NO_STREAM {
+            left_sibling
+        } else {
+            // The in-order predecessor (the right-most entry of the left
+            // subtree) takes the place of the removed entry.
+            let mut pred_parent_id = stream_id;
             let mut predecessor_id = left_sibling;
             loop {
-                stream_ids.push(predecessor_id);
                 let next_id = self.dir_entry(predecessor_id).right_sibling;
                 if next_id == consts::NO_STREAM {
                     break;
                 }
+                pred_parent_id = predecessor_id;
                 predecessor_id = next_id;
             }
-            let mut pred_entry = self.dir_entry(predecessor_id).clone();
-            debug_assert_eq!(pred_entry.right_sibling, consts::NO_STREAM);
-            pred_entry.left_sibling = left_sibling;
-            pred_entry.right_sibling = right_sibling;
-            pred_entry.write_to(&mut self.seek_to_dir_entry(stream_id)?)?;
-            *self.dir_entry_mut(stream_id) = pred_entry;
-            stream_id = predecessor_id;
-        }
+            if pred_parent_id != stream_id {
+                // The predecessor's parent adopts the predecessor's left
+                // subtree, and the predecessor adopts the removed entry's
+                // left subtree.
+                let pred_left = self.dir_entry(predecessor_id).left_sibling;
+                self.dir_entry_mut(pred_parent_id).right_sibling = pred_left;
+                let mut sector =
+                    self.seek_within_dir_entry(pred_parent_id, 72)?;
+                sector.write_le_u32(pred_left)?;
+                self.dir_entry_mut(predecessor_id).left_sibling =
+                    left_sibling;
+                let mut sector =
+                    self.seek_within_dir_entry(predecessor_id, 68)?;
+                sector.write_le_u32(left_sibling)?;
+            }
+            self.dir_entry_mut(predecessor_id).right_sibling = right_sibling;
+            let mut sector = self.seek_within_dir_entry(predecessor_id, 72)?;
+            sector.write_le_u32(right_sibling)?;
+            predecessor_id
+        };
         // TODO: recolor nodes
 
         // Remove the entry.
